@@ -50,7 +50,7 @@ class Registry:
     def __init__(self):
         self.handlers = {}
         self.consts = {}
-        self.module_alias = {"array_api_compat.numpy": "xp", "numpy": "xp", "array_api_compat.torch": "xp", "jax.numpy": "xp"}
+        self.module_alias = {"array_api_compat.numpy": "xp.numpy", "numpy": "xp.numpy", "array_api_compat.torch": "xp.torch", "jax.numpy": "xp.jax", "torch": "xp.torch"}
         self.builtin_types = {"float", "int", "str", "dict", "list", "tuple", "bytes", "bool", "set", "Exception", "object"}
         self.import_ok = set()
         self.setattr_hooks = {}
@@ -71,12 +71,19 @@ class Registry:
     # ----- hooks used by the interpreter
     def module_attr(self, i, mod: Mod, attr):
         if mod.name == "xp" or mod.name.startswith("xp."):
-            key = f"{mod.name}.{attr}"
-            if key in self.handlers:
-                return Fn(self.handlers[key], key)
-            key = f"xp.{attr}"
-            if key in self.handlers:
-                return Fn(self.handlers[key], key)
+            generic = mod.name
+            for spec in ("xp.numpy", "xp.torch", "xp.jax"):
+                if generic == spec or generic.startswith(spec + "."):
+                    generic = "xp" + generic[len(spec):]
+            for key in (f"{mod.name}.{attr}", f"{generic}.{attr}", f"xp.{attr}"):
+                if key in self.handlers:
+                    h = self.handlers[key]
+                    return Fn(h, key, bound=mod if getattr(h, "_wants_mod", False) else None)
+            for key in (f"{mod.name}.{attr}", f"{generic}.{attr}", f"xp.{attr}"):
+                if key in self.consts:
+                    return self.consts[key]
+            if attr == "__name__":
+                return Str({"xp.numpy": "array_api_compat.numpy", "xp.torch": "array_api_compat.torch", "xp.jax": "jax.numpy"}.get(mod.name, mod.name))
         if mod.name == "logger" or mod.name.endswith("logging") or mod.name == "logging":
             return None
         return None
@@ -144,6 +151,8 @@ class Registry:
                     return Sym(z3.Const(f"name<{o.e.sexpr()}>", Misc), "str")
             if attr in o.info.get("attrs", {}):
                 return o.info["attrs"][attr]
+        if isinstance(o, Fn) and f"{o.name}.{attr}" in self.handlers and o.bound is None:
+            return Fn(self.handlers[f"{o.name}.{attr}"], f"{o.name}.{attr}")
         if isinstance(o, (FuncRef, Closure, Fn)) and attr == "__name__":
             return Str(getattr(o, "name", "fn"))
         if isinstance(o, FuncRef) and attr == "calls":
@@ -503,7 +512,12 @@ def install_arrays(reg: Registry):
                 if x.elem == "row":
                     # reduction over a 2-D array: axis handling not modelled -> abstract
                     return Sym(z3.Const(f"{_name}<{x.key},{skey(k.get('axis', a[1] if len(a) > 1 else NONE))}>", Misc), "arrstat")
-                return R(red(_name, x))
+                t = red(_name, x)
+                if _name in ("sum", "mean") and x.key.startswith("exp("):
+                    # lemma instance (lean/Spec.lean: sum_exp_pos): a sum of exponentials over a non-empty index set is positive
+                    i.path.assume(z3.Implies(x.n >= 1, t > 0), check=False)
+                    i.path.ex.assumed.add("lemma[sum_exp_pos: 0 < sum_i exp(a_i) for n >= 1] (proved in lean/Spec.lean)")
+                return R(t)
             if isinstance(x, Z):
                 return x
             if isinstance(x, Sym):
@@ -957,6 +971,8 @@ def install_builtins(reg: Registry):
                     return True
                 ca, _ = i.front.find_class_attr(o.cls, name)
                 return ca is not None
+            if f"{o.cls}.{name}" in reg.obj_props:
+                return reg.obj_props[f"{o.cls}.{name}"](i, o, None) is not None
             return f"{o.cls}.{name}" in reg.handlers
         if isinstance(o, Sym):
             if "hasattr" in o.info:
@@ -972,6 +988,10 @@ def install_builtins(reg: Registry):
             return name in ("shape", "dtype", "__array__", "T")
         if isinstance(o, (Closure, Fn, Partial)):
             return name in ("__name__", "__call__") and not isinstance(o, Partial)
+        if isinstance(o, Str):
+            return f"str.{name}" in reg.handlers
+        if isinstance(o, (PyDict, PyList, Tup, Z)):
+            return False
         raise Unsupported(f"hasattr on {o!r}")
 
     reg.has_attr = has_attr
@@ -1006,6 +1026,15 @@ def install_builtins(reg: Registry):
         if isinstance(o, Obj):
             return ClassRef(o.cls)
         raise Unsupported(f"type({o!r})")
+
+    @H("fields")
+    def h_fields(i, a, k, n):
+        o = a[0]
+        cname = o.cls if isinstance(o, Obj) else o.name
+        return PyList([Obj("Field", {"name": Str(nm), "init": B(bool(init))}) for nm, d, init, owner in i.front.dataclass_fields(cname)])
+
+    reg.handlers["dataclasses.fields"] = h_fields
+    reg.import_ok.add("dataclasses.fields")
 
     @H("print")
     def h_print(i, a, k, n):
